@@ -70,6 +70,20 @@ func (fv *FV) lookupId(name string, env *Env) (Val, bool) {
 	if v, ok := env.params[name]; ok {
 		return v, true
 	}
+	// a package-level variable of the function's own package: its current content
+	if env.fn != nil {
+		pk := env.fn.Pkg
+		if pk == nil && env.fn.Parent() != nil {
+			pk = env.fn.Parent().Pkg
+		}
+		if pk != nil {
+			if g, ok := pk.Members[name].(*ssa.Global); ok {
+				gv := fv.valOf(env.st, g)
+				l := fv.ptrLoc(gv)
+				return Val{T: fv.load(env.st, l), S: fv.locSort(l), Typ: l.typ}, true
+			}
+		}
+	}
 	if s, ok := fv.u.db.GGlobal[name]; ok {
 		if g, ok := env.st.ghost[name]; ok {
 			return g, true
